@@ -88,16 +88,25 @@ def run(ctx):
     stats = {"syntax-error": 0, "outside-fragment": 0}
 
     # 1. corpus of boundary cases (text) -> read back through the repository's parser
-    corpus_sets = [fs for _, fs in G.CORPUS]
+    #    + enumerated rule strata: every duplicate / overlap rule of a message or enum in all three syntaxes (reserved names in
+    #    both spellings, within one statement and across statements, names and numbers in use against reserved ones), and what
+    #    `max` / the largest number means in every kind of range (ordinary message, message set, enum)
+    rules = G.dup_sets() + G.max_sets()
+    corpus = list(G.CORPUS) + rules
+    corpus_sets = [fs for _, fs in corpus]
     parsed = G.parse_sets(ctx, corpus_sets)
     cc = []
-    for (label, fs), (asts, why) in zip(G.CORPUS, parsed):
+    rules_unfit = []
+    for (label, fs), (asts, why) in zip(corpus, parsed):
         if asts is None or why:
             stats["outside-fragment"] += 1
+            if label.startswith(("dup-", "max-")):
+                rules_unfit.append([label, why[:2]])
             continue
         cc.append(("corpus:" + label, asts, fs))
     # 2. generated programs and single-rule mutants
-    progs = G.gen_cases(rng, ctx.budget(32, 1500), ctx.budget(5, 6), small=(ctx.tier != "thorough"), extended=True)
+    progs = G.gen_cases(rng, ctx.budget(32, 1500), ctx.budget(5, 6), small=(ctx.tier != "thorough"), extended=True,
+                        focus=("reserved_dup", "max_range"))
     texts = G.render_sets(rng, progs)
     gc = [(label, files, t) for (label, files), t in zip(progs, texts)]
     allc = cc + gc
@@ -120,9 +129,20 @@ def run(ctx):
     for c in cases[:2] + cases[len(cc):len(cc) + 2]:
         ctx.sample({"label": c[0], "files": G.plain_text(c[1]), "impl_ok": c[3]["ok"], "first_error": (c[3]["errs"] or [{}])[0].get("cls")})
     nexc = evaluate(ctx, cases, "g")
-    ctx.rule = ("file sets of 1-4 files: hand-written boundary corpus (%d), generated valid programs and single-rule near-valid mutants (%d mutators); "
+    ctx.rule = ("file sets of 1-4 files: hand-written boundary corpus (%d) and enumerated rule strata (%d: duplicate / overlap rules of messages and enums "
+                "in proto2 / proto3 / editions with reserved names in both spellings, within and across statements; the meaning of max and of the largest "
+                "number in extension / reserved / enum reserved ranges of ordinary and message-set messages), generated valid programs and single-rule "
+                "near-valid mutants (%d mutators); "
                 "distinct = distinct canonical source text; every evaluated case is non-trivial (compiled by the real compiler, verdict and first error "
-                "class per file compared with the mirror, verdict compared with the protoc specification)" % (len(cc), len(G.Mutator(rng).names())))
+                "class per file compared with the mirror, verdict compared with the protoc specification)"
+                % (len(cc) - len(rules) + len(rules_unfit), len(rules) - len(rules_unfit), len(G.Mutator(rng).names())))
+    # the rule strata must not be vacuous: both verdicts occur, and every file set is inside the model
+    rc = [c for c in cases if c[0].startswith(("corpus:dup-", "corpus:max-"))]
+    ctx.extra["rule_strata"] = {"file_sets": len(rules), "evaluated": len(rc), "accepted": sum(1 for c in rc if c[3]["ok"]),
+                                "rejected": sum(1 for c in rc if not c[3]["ok"]), "outside_model_fragment": rules_unfit[:10]}
+    if len(rc) < (9 * len(rules)) // 10:
+        ctx.corr_break("miniproto:rule-strata-vacuous", {"file_sets": len(rules), "evaluated": len(rc)},
+                       {"note": "more than a tenth of the enumerated rule file sets do not reach the comparison (grammar or fragment)"})
     ctx.extra["outside_model"] = stats
     ctx.extra["compiler_panics"] = {"count": len(panics), "first": panics[:1],
                                     "note": "recovered panics of the compiler (verdict reject, no diagnostic); modelled as they are (ECompilerPanic)"}
